@@ -27,6 +27,7 @@ NP = "namespace_peers"
 
 EXPLANATION += ' (R8) who-may-write the peers table: register_useful_peer, remove_replica, the migrations.'
 EXPLANATION += ' Round 9: R3 also carries the destructor rows of C06.R4 (registrations still in the open transaction are committed when the store goes out of scope).'
+EXPLANATION += ' Round 10: (R9) = C10.R12 (when the engine registers a peer); (R10) = C16.R13 (a refused removal leaves the list alone).'
 
 
 def tx_closure(f):
